@@ -281,6 +281,41 @@ def run(ctx):
         ctx.check(good, "R13.4", b.loc(), f"option|{owner}", f"{owner}::deserialize_option: Null must map to visit_none and every other variant to visit_some; got Null->{sorted(m.get('Null', []))}",
                   instance=f"{owner}::deserialize_option: Null -> visit_none, else visit_some(self)")
 
+    # ---------------- R13.6 the serializer side keeps everything it is given
+    # (a) compound serializers: every element / field / entry handed in is stored — no conditional drop (a field whose value
+    #     serializes to null is still a field of the value; dropping it makes the JSON differ and required fields vanish)
+    ADD = ("serialize_element", "serialize_field", "serialize_value", "serialize_entry")
+    COMPOUND = ("SerializeSeq", "SerializeTuple", "SerializeTupleStruct", "SerializeTupleVariant", "SerializeMap", "SerializeStruct", "SerializeStructVariant")
+    nadd = 0
+    for i in scope:
+        if (i.get("trait") or "").split("::")[-1] not in COMPOUND or not (i.get("trait") or "").startswith("serde_core::ser::"):
+            continue
+        for mname, mb in sorted(c.methods_of_impl(i).items()):
+            if mname not in ADD:
+                continue
+            nadd += 1
+            eb = inline.expand(c, mb, depth=2, pred=lambda cb: "/any/" in (cb.file or "") and cb.name not in ADD, lower=True)
+            cfg_ = CFG(eb)
+            adders = [bb for bb, t in eb.calls() if (t["call"]["name"] in ("insert", "push", "push_back") and ("BTreeMap" in t["call"]["def"] or "Vec" in t["call"]["def"] or "vec::" in t["call"]["def"]))
+                      or (t["call"]["name"] in ADD and (t["call"].get("trait") or "").startswith("serde_core::ser::"))]
+            oks = [o for o in dt.ok_return_blocks(eb) if o[2]["r"].get("variant") == "Ok"]
+            good = bool(adders) and all(any(cfg_.dominates(a_, okbb) for a_ in adders) for okbb, _, _ in oks)
+            who = f"{(ty_adt(i['self_ty']) or '?').split('::')[-1]} as {i['trait'].split('::')[-1]}::{mname}"
+            ctx.check(good, "R13.6", mb.loc(), f"{ty_adt(i['self_ty'])}|{i['trait'].split('::')[-1]}|{mname}|stores-unconditionally",
+                      f"{who}: a success return is reachable without the element / field having been stored (or handed to the sibling method that stores it): values given to the carrier must not be dropped, whatever they serialize to",
+                      instance=f"{who}: every Ok return follows the store")
+    ctx.floor("R13.6", "element-adding methods of the compound serializers", nadd, 4)
+    # (b) variant serializers: the single key of the {variant: payload} map is the *variant* name (4th parameter), the enum's
+    #     type name (2nd parameter, same type &'static str) goes nowhere
+    for mname, mb in sorted(ms.items()):
+        if mname not in ("serialize_unit_variant", "serialize_newtype_variant", "serialize_tuple_variant", "serialize_struct_variant"):
+            continue
+        uses_name = [u for u in dt.uses_of_local(mb, 2)]
+        uses_variant = [u for u in dt.uses_of_local(mb, 4)]
+        ctx.check(not uses_name and bool(uses_variant), "R13.6", mb.loc(), f"ser|{mname}|variant-name",
+                  f"AnySerializer::{mname}: the enum's type name (parameter `name`) is used {len(uses_name)} time(s) and the variant name (parameter `variant`) {len(uses_variant)} time(s); the carrier must record the variant name only — both are &'static str, so a swap type-checks",
+                  instance=f"AnySerializer::{mname}: keyed by `variant`, `name` unused")
+
     # ---------------- R13.5 the key deserializer stays in force below optional / newtype / enum keys
     KD = "conjure_object::any::de::KeyDeserializer"
     nk = 0
